@@ -261,6 +261,23 @@ void PCA(matrix *mx, int scaling, size_t npc, PCAMODEL* model, ssignal *s)
       for(i = 0; i < E->row; i++)
         t->data[i] = E->data[i][j];
 
+      if(DVectorDVectorDotProd(t, t) == 0.f){
+        /* The column of largest variance can be null although E is not (uncentred
+         * data with constant columns): start from the first column that is not null.
+         * If there is none the null-component exit of the loop below applies.
+         */
+        for(j = 0; j < E->col; j++){
+          mod_t = 0.f;
+          for(i = 0; i < E->row; i++)
+            mod_t += square(E->data[i][j]);
+          if(mod_t > 0.f){
+            for(i = 0; i < E->row; i++)
+              t->data[i] = E->data[i][j];
+            break;
+          }
+        }
+      }
+
       /* End Step 1 */
 
       while(1){
